@@ -171,6 +171,7 @@ func await[T any](ch <-chan T, match func(T) bool, recvFunc string) (T, outcome)
 	start := time.Now()
 	next := 100 * time.Millisecond
 	wedgedID := ""
+	chanID, chanLooks := "", 0
 	for {
 		t := time.NewTimer(next)
 		select {
@@ -202,6 +203,17 @@ func await[T any](ch <-chan T, match func(T) bool, recvFunc string) (T, outcome)
 			wedgedID = id
 		} else {
 			wedgedID = ""
+		}
+		if chanWedgeOn.Load() {
+			// channel twin of the rule above (three consecutive looks)
+			if id, fn, where, st, ok := chanWedge(); ok && (chanLooks == 0 || id == chanID) {
+				chanID = id
+				if chanLooks++; chanLooks >= 3 {
+					return zero, outcome{"blocked", fn + " " + where + " " + st}
+				}
+			} else {
+				chanID, chanLooks = "", 0
+			}
 		}
 		if time.Since(start) > hardWait {
 			return zero, outcome{"stall", fmt.Sprintf("no progress for %v", hardWait)}
@@ -346,6 +358,7 @@ func installHook() *hookLog {
 			default:
 			}
 		}
+		hold.atHook(point, opid)
 	})
 	return h
 }
@@ -434,7 +447,12 @@ func runChild(args []string) int {
 		if in.Class == "edgehdr" {
 			debug.SetMaxStack(flatStack)
 		}
+		chanWedgeOn.Store(in.Class == repeatClass)
 		out := ep.deliver(idx, in)
+		chanWedgeOn.Store(false)
+		if in.Class == repeatClass && out.kind == "ok" && hold.reached.Load() {
+			out.note += "+requester-held-while-copies-dispatched"
+		}
 		debug.SetMaxStack(childStack)
 		switch out.kind {
 		case "ok":
